@@ -124,6 +124,26 @@ def main():
     picked = valid if len(valid) <= budget else rng.sample(valid, budget)
     todo = picked + deeper[: (4000 if thorough else 200)]
     pool.map_cases(rep, "harness.c08", "check_case", todo)
+    # merge_transforms (flattening nested Transformed distributions) never changes the function: TLC's Flows machine
+    # supplies nests of depth 2 and 3 with exact expected samples / log-probs (shared with C03)
+    from engine import tlc as _tlc
+    fr = _tlc.run("MC_Flows", "MC_Flows_full.cfg" if thorough else "MC_Flows_quick3.cfg", workers=16, timeout=1800, coverage=False)
+    if fr.violated:
+        rep.machinery_failure(f"Flows.tla violates {fr.violated}")
+    else:
+        rep.add("states", fr.distinct)
+        rep.add("transitions", fr.generated)
+        uniq = {}
+        for c in fr.cases:
+            if c["nest"] >= 2:
+                uniq.setdefault(json.dumps(c["dist"], sort_keys=True), c)
+        nests = list(uniq.values())
+        deep = [c for c in nests if c["nest"] >= 3]
+        shallow = [c for c in nests if c["nest"] == 2]
+        pick = (deep if len(deep) <= 60 else rng.sample(deep, 60 if not thorough else 600)) + \
+               (shallow if len(shallow) <= 30 else rng.sample(shallow, 30 if not thorough else 200))
+        pool.map_cases(rep, "harness.c03", "check_case", pick, chunk=10)
+        rep.set("merge_transforms_nests_replayed", len(pick))
     rep.set("traces_validated_against_impl", 0)
     rep.set("programs_replayed", len(todo))
     rep.set("exhaustive", len(picked) == len(valid))
